@@ -16,23 +16,21 @@ pub(crate) fn reflect_to_bin(
         .serialize(&serializer)
 }
 
-pub(crate) fn bin_to_reflect(data: &[u8], registry: &TypeRegistry) -> Box<dyn Reflect> {
+pub(crate) fn bin_to_reflect(data: &[u8], registry: &TypeRegistry) -> Option<Box<dyn Reflect>> {
     let reflect_deserializer = ReflectDeserializer::new(registry);
     let binoptions = DefaultOptions::new()
         .with_fixint_encoding()
         .allow_trailing_bytes();
     let mut bin_deser = bincode::Deserializer::from_slice(data, binoptions);
-    let data = reflect_deserializer.deserialize(&mut bin_deser).unwrap();
+    let data = reflect_deserializer.deserialize(&mut bin_deser).ok()?;
     if !data.is::<DynamicStruct>() {
-        return data;
+        return Some(data);
     }
-    let data = data.downcast::<DynamicStruct>().unwrap();
-    let type_path = data.get_represented_type_info().unwrap().type_path();
-    let registration = registry.get_with_type_path(type_path).unwrap();
-    let rfr = registry
-        .get_type_data::<ReflectFromReflect>(registration.type_id())
-        .unwrap();
-    rfr.from_reflect(&*data).unwrap()
+    let data = data.downcast::<DynamicStruct>().ok()?;
+    let type_path = data.get_represented_type_info()?.type_path();
+    let registration = registry.get_with_type_path(type_path)?;
+    let rfr = registry.get_type_data::<ReflectFromReflect>(registration.type_id())?;
+    rfr.from_reflect(&*data)
 }
 
 #[cfg(test)]
@@ -60,7 +58,7 @@ mod test {
 
         let data = reflect_to_bin(compo_orig.as_reflect(), &registry).unwrap();
 
-        let compo_result = bin_to_reflect(&data, &registry);
+        let compo_result = bin_to_reflect(&data, &registry).unwrap();
         let compo_result = compo_result.downcast::<T>().unwrap();
 
         assert_eq!(*compo_result, compo_orig);
@@ -88,7 +86,7 @@ mod test {
 
         let data = reflect_to_bin(compo_orig.as_reflect(), &registry).unwrap();
 
-        let compo_result = bin_to_reflect(&data, &registry);
+        let compo_result = bin_to_reflect(&data, &registry).unwrap();
         let compo_result = compo_result.downcast::<Transform>().unwrap();
 
         assert_eq!(*compo_result, compo_orig);
@@ -114,7 +112,7 @@ mod test {
 
         let data = reflect_to_bin(material_orig.as_reflect(), &registry).unwrap();
 
-        let result = bin_to_reflect(&data, &registry);
+        let result = bin_to_reflect(&data, &registry).unwrap();
         let result = result.downcast::<StandardMaterial>().unwrap();
 
         assert_eq!(result.base_color, material_orig.base_color);
@@ -145,7 +143,7 @@ mod test {
             .serialize(&serializer)
             .unwrap();
 
-        let result = bin_to_reflect(&result, &registry);
+        let result = bin_to_reflect(&result, &registry).unwrap();
         let result = result.downcast::<StandardMaterial>().unwrap();
         assert_eq!(compo.base_color, result.base_color);
     }
